@@ -666,13 +666,19 @@ def runProposalMsgs (msgs : List Msg) (s : State) : State × Bool :=
 
 /-! ## message server -/
 
+/-- the time under which `ActivateVotingPeriod` enters the proposal into the active queue: the voting end it stores
+(regenerated: the queue key is `*proposal.VotingEndTime`); otherwise the end computed from the default period of the kind -/
+def activationQueueTime (s : State) (p : Proposal) : Nat :=
+  if activationQueueKeyIsVotingEnd then s.time + activationPeriod s p
+  else s.time + (if p.expedited then s.params.expVotingPeriod else s.params.votingPeriod)
+
 /-- `ActivateVotingPeriod` -/
 def activate (s : State) (p : Proposal) : State :=
   let vp := activationPeriod s p
   let p' := { p with status := .voting, votingStart := s.time, votingEnd := s.time + vp }
   { s with props := putProp s.props p',
            inactive := removeQ (p.depositEnd, p.id) s.inactive,
-           active := insertQ (s.time + vp, p.id) s.active }
+           active := insertQ (activationQueueTime s p, p.id) s.active }
 
 /-- `proposal.GetMinDepositFromParams(params)` -/
 def defaultMin (s : State) (expedited : Bool) : Nat :=
@@ -682,13 +688,43 @@ def defaultMin (s : State) (expedited : Bool) : Nat :=
 def tooSmall (s : State) (p : Proposal) (amt : Nat) : Bool :=
   s.params.minDepositRatio != 0 && (amt == 0 || amt < mulTrunc (defaultMin s p.expedited) s.params.minDepositRatio)
 
-/-- the writes of a successful `AddDeposit`: bank transfer, total, activation test, deposit record -/
+/-- the writes of a successful `AddDeposit` in one piece — bank transfer, total, activation test on the NEW total against
+the minimum of the message type, deposit record; `depositRun` (below) interprets the regenerated statement list and is
+proved equal to this (`Proofs/C15.lean depositRun_eq`) for the order the source has -/
 def depositEffect (s : State) (p : Proposal) (who : Addr) (amt : Nat) : State :=
   let p1 := { p with total := p.total + amt }
   let s1 := { s with bal := setBal s.bal who (getBal s.bal who - amt), gov := s.gov + amt, props := putProp s.props p1 }
   let s2 := if p1.status == .deposit && reaches p1.total (minForMsgs s.custom (defaultMin s p.expedited) p1.msgs)
             then activate s1 p1 else s1
   { s2 with deps := addDep s2.deps p.id who amt, paid := s2.paid ++ [⟨p.id, who, amt⟩] }
+
+/-- the local variables of `AddDeposit` that its statements read and write: the store, the local copy of the proposal
+(`ActivateVotingPeriod` receives it BY VALUE), `minDepositAmount` -/
+structure DepLocals where
+  s : State
+  p : Proposal
+  min : MinCoins
+
+/-- one top-level statement of `AddDeposit`, by its regenerated tag; statements that neither read nor write what the
+property speaks about (look-ups, hooks, events, the merged deposit record before it is stored) change nothing here -/
+def depStep (who : Addr) (amt : Nat) (l : DepLocals) (tag : String) : DepLocals :=
+  if tag == "defaultMin" then { l with min := ⟨some (defaultMin l.s l.p.expedited), none⟩ }
+  else if tag == "sendCoins" then
+    { l with s := { l.s with bal := setBal l.s.bal who (getBal l.s.bal who - amt), gov := l.s.gov + amt } }
+  else if tag == "addTotal" then { l with p := { l.p with total := l.p.total + amt } }
+  else if tag == "setProposal" then { l with s := { l.s with props := putProp l.s.props l.p } }
+  else if tag == "msgMin" then { l with min := minForMsgs l.s.custom (l.min.fx.getD 0) l.p.msgs }
+  else if tag == "activate" then
+    (if l.p.status == .deposit && reaches l.p.total l.min then { l with s := activate l.s l.p } else l)
+  else if tag == "setDeposit" then
+    { l with s := { l.s with deps := addDep l.s.deps l.p.id who amt, paid := l.s.paid ++ [⟨l.p.id, who, amt⟩] } }
+  else l
+
+/-- the writes of a successful `AddDeposit`, statement by statement in SOURCE ORDER (`addDepositSteps` is regenerated from
+the AST on every run): whether the activation test sees the new total, the minimum of the message type and the coins in
+the module account is decided by where those statements stand -/
+def depositRun (s : State) (p : Proposal) (who : Addr) (amt : Nat) : State :=
+  (addDepositSteps.foldl (depStep who amt) ⟨s, p, ⟨none, none⟩⟩).s
 
 /-- `AddDeposit` (fx wrapper).  `.error` = the message fails and nothing is written. -/
 def addDeposit (s : State) (pid : Nat) (who : Addr) (amt : Nat) : Except String State :=
@@ -698,7 +734,7 @@ def addDeposit (s : State) (pid : Nat) (who : Addr) (amt : Nat) : Except String 
     if !(p.status == .deposit || p.status == .voting) then .error "err:inactive" else
     if tooSmall s p amt then .error "err:small" else
     if getBal s.bal who < amt then .error "err:funds" else
-    .ok (depositEffect s p who amt)
+    .ok (depositRun s p who amt)
 
 /-- `MsgSubmitProposal` -/
 def submit (s : State) (proposer : Addr) (msgs : List Msg) (initial : Nat) (expedited : Bool) : Except String State :=
@@ -717,6 +753,14 @@ def submit (s : State) (proposer : Addr) (msgs : List Msg) (initial : Nat) (expe
 /-- `MsgDeposit` -/
 def deposit (s : State) (pid : Nat) (who : Addr) (amt : Nat) : Except String State :=
   if amt == 0 then .error "err:coins" else addDeposit s pid who amt
+
+/-- `MsgDeposit` whose coins contain `other` units of a denomination that is not listed in `params.MinDeposit`: after the
+look-up and the status test `validateDepositDenom` rejects it, nothing is written -/
+def depositX (s : State) (pid : Nat) (who : Addr) (fx other : Nat) : Except String State :=
+  if other == 0 then deposit s pid who fx else
+  match findProp s.props pid with
+  | none => .error "err:notfound"
+  | some p => if !(p.status == .deposit || p.status == .voting) then .error "err:inactive" else .error "err:denom"
 
 /-- `MsgCancelProposal` (SDK): charge, refund the rest, delete the proposal -/
 def cancel (s : State) (pid : Nat) (who : Addr) : Except String State :=
@@ -839,6 +883,8 @@ inductive Op where
   | updateCustom (url : Ty) (c : Option Custom)
   | submit (proposer : Addr) (msgs : List Msg) (initial : Nat) (expedited : Bool)
   | deposit (pid : Nat) (who : Addr) (amt : Nat)
+  /-- a deposit that carries `other` units of a non-deposit denomination as well -/
+  | depositX (pid : Nat) (who : Addr) (fx other : Nat)
   | cancel (pid : Nat) (who : Addr)
   | vote (pid : Nat) (voter : Addr) (opts : List (Opt × Nat))
   /-- a tracked account spends coins outside gov (a staking delegation) -/
@@ -861,6 +907,7 @@ def step (s : State) : Op → State × String
     | some c => if c.valid then ({ s with custom := setCustom s.custom url c }, "ok") else (s, "err:params")
   | .submit who msgs initial exp => ofExcept s (submit s who msgs initial exp)
   | .deposit pid who amt => ofExcept s (deposit s pid who amt)
+  | .depositX pid who fx other => ofExcept s (depositX s pid who fx other)
   | .cancel pid who => ofExcept s (cancel s pid who)
   | .vote pid voter opts => ofExcept s (vote s pid voter opts)
   | .spend who amt =>
